@@ -28,6 +28,10 @@ objs=[div(grad(f))*v*dx + inner(grad(grad(f)),grad(grad(v)))*dx]'''),
     corpus._c("c01_pyramid_prism_coef", '''
 m=mesh("prism"); V=space(m,"P",1); v=TestFunction(V); f=Coefficient(V)
 objs=[f*f*v*dx + dot(grad(f),grad(v))*dx]'''),
+    corpus._c("c01_quadrature_element_and_plain_terms", '''
+m=mesh("triangle"); V=space(m,"P",2); u,v=TrialFunction(V),TestFunction(V); f=Coefficient(V)
+QE=basix.ufl.quadrature_element("triangle", (), "default", 2); s=Coefficient(FunctionSpace(m,QE))
+objs=[s*v*dx(degree=2) + f*f*v*dx(degree=6), s*u*v*dx(degree=2) + f*u*v*dx(degree=4)]'''),
     # gradients of Piola-mapped functions that are NOT invariant under transposition
     corpus._c("c01_single_curl_n1curl_tri", '''
 m=mesh("triangle"); V=space(m,"N1curl",2); Q=space(m,"P",2); u=TrialFunction(V); q=TestFunction(Q); f=Coefficient(V); g=Coefficient(Q)
